@@ -290,7 +290,7 @@ fn run(ctx: &mut Ctx) {
         let mut lim: usize = if src == Src::Pool { max_len_pool } else { max_len_tok };
         // sanitizer layers: exhaustive cut sets only for the shortest inputs
         if ctx.scale_pct <= 2 {
-            lim = if src == Src::Pool { 8 } else { 5 };
+            lim = if src == Src::Pool { 6 } else { 0 };
         } else if ctx.scale_pct < 100 {
             lim = lim.saturating_sub(3);
         }
@@ -324,7 +324,7 @@ fn run(ctx: &mut Ctx) {
                 }
                 // async with the same cuts: all pending scripts for <= 4 pieces, one fixed script otherwise
                 let pieces = cuts.len() + 1;
-                if pieces <= 4 && input.len() <= 9 {
+                if pieces <= 4 && input.len() <= 9 && ctx.scale_pct > 2 {
                     let total = 3u32.pow(pieces as u32);
                     for code in 0..total {
                         let mut p = Vec::with_capacity(pieces);
@@ -392,8 +392,12 @@ fn run(ctx: &mut Ctx) {
         }
         let base = trace_slice(input, &cfg);
         let big = input.len() > 4096;
+        let tiny = ctx.scale_pct <= 2;
+        if tiny && (input.len() > 300 || (src == Src::Pool && r.chance(3, 4))) {
+            return true;
+        }
         for piece in [1usize, 2, 3, 7] {
-            if big && piece < 3 {
+            if (big && piece < 3) || (tiny && piece != 1 && piece != 7) {
                 continue;
             }
             let cuts = cuts_for_piece(input.len(), piece, fmin);
@@ -410,7 +414,7 @@ fn run(ctx: &mut Ctx) {
                 }
             }
         }
-        for _ in 0..if big { 1 } else { 4 } {
+        for _ in 0..if big || tiny { 1 } else { 4 } {
             let cuts = random_cuts(r, input.len(), fmin);
             if !big {
                 classify_cuts(input, &cuts, &mut loc);
